@@ -311,6 +311,11 @@ def run(rep: common.Report, tier: str, seed: int, replay=None) -> int:
             corpus.append(dict(n=1, gamma=gam, u=5.79, dt=1e-3, psi=[complex(mag, 0)], M=[[0j]],
                                mu=[0.3], eps=[1.0], kind="corpus"))
     dr = double_root_groups(rng)
+    # the same numbers in other number types: integer gamma / u / dt, numpy scalars
+    for gam, u_, dt_ in ((10, 1, 1), (0, 2, 1), (np.float64(2.0), np.int64(3), np.float64(0.5)), (np.int64(1), 5.79, 0.125)):
+        # (float32 inputs are not used: numpy's promotion rules then legitimately evaluate dt / u in single precision)
+        corpus.append(dict(n=2, gamma=gam, u=u_, dt=dt_, psi=[0.6 + 0.3j, -0.2 + 0.9j], M=[[-0.5 + 0j, 0.25 + 0.1j], [0.25 - 0.1j, -0.5 + 0j]],
+                           mu=[0.3, -1.2], eps=[1.0, 0.5], kind="corpus"))
     groups = corpus + dr + groups
     results = []
     stats = {"answered": 0, "refused": 0, "border": 0, "bad": 0}
